@@ -755,4 +755,49 @@ theorem presents_persist_XIS (u : UC) (m : MM) (hm : m.Closed u) :
         (fun c' _ => insI_indexItems u c.kind c'),
       insI_flatMap_inst u m.classes hm.distinct hc, List.nil_append, List.append_nil]
 
+/-! ### the three parts in any order -/
+
+/-- the six orders in which the three separately written parts can be concatenated (or fed one after the other) -/
+def serializeOrders (u : UC) (m : MM) : List (List Item) :=
+  [(m.serializeSchema u) ++ (m.serializeInstances) ++ (m.serializeUniqueIdentifiers u),
+   (m.serializeSchema u) ++ (m.serializeUniqueIdentifiers u) ++ (m.serializeInstances),
+   (m.serializeInstances) ++ (m.serializeSchema u) ++ (m.serializeUniqueIdentifiers u),
+   (m.serializeInstances) ++ (m.serializeUniqueIdentifiers u) ++ (m.serializeSchema u),
+   (m.serializeUniqueIdentifiers u) ++ (m.serializeSchema u) ++ (m.serializeInstances),
+   (m.serializeUniqueIdentifiers u) ++ (m.serializeInstances) ++ (m.serializeSchema u)]
+
+def persistOrders (u : UC) (m : MM) : List (List Item) :=
+  [(m.persistSchema u) ++ (m.persistInstances) ++ (m.persistUniqueIdentifiers),
+   (m.persistSchema u) ++ (m.persistUniqueIdentifiers) ++ (m.persistInstances),
+   (m.persistInstances) ++ (m.persistSchema u) ++ (m.persistUniqueIdentifiers),
+   (m.persistInstances) ++ (m.persistUniqueIdentifiers) ++ (m.persistSchema u),
+   (m.persistUniqueIdentifiers) ++ (m.persistSchema u) ++ (m.persistInstances),
+   (m.persistUniqueIdentifiers) ++ (m.persistInstances) ++ (m.persistSchema u)]
+
+/-- the three separately written parts, in any of the six orders, build to the reloaded metamodel -/
+theorem reload_parts (u : UC) (m : MM) (hm : m.Closed u) (items : List Item) (stmts : List Stmt)
+    (hs : itemsStmts u items = some stmts) :
+    (items ∈ serializeOrders u m → ∃ bs, build u stmts = .ok bs ∧ bs.toMM u = m.reloaded u m.assocsByIdKind) ∧
+    (items ∈ persistOrders u m → ∃ bs, build u stmts = .ok bs ∧ bs.toMM u = m.reloaded u m.assocsById) := by
+  constructor
+  · intro h
+    simp only [serializeOrders, List.mem_cons, List.mem_nil_iff, or_false] at h
+    rcases h with rfl | rfl | rfl | rfl | rfl | rfl
+    · exact reload_of_presents u m hm _ _ _ stmts (presents_serialize_SIX u m hm) hs
+    · exact reload_of_presents u m hm _ _ _ stmts (presents_serialize_SXI u m hm) hs
+    · exact reload_of_presents u m hm _ _ _ stmts (presents_serialize_ISX u m hm) hs
+    · exact reload_of_presents u m hm _ _ _ stmts (presents_serialize_IXS u m hm) hs
+    · exact reload_of_presents u m hm _ _ _ stmts (presents_serialize_XSI u m hm) hs
+    · exact reload_of_presents u m hm _ _ _ stmts (presents_serialize_XIS u m hm) hs
+  · intro h
+    simp only [persistOrders, List.mem_cons, List.mem_nil_iff, or_false] at h
+    rcases h with rfl | rfl | rfl | rfl | rfl | rfl
+    · exact reload_of_presents u m hm _ _ _ stmts (presents_persist_SIX u m hm) hs
+    · exact reload_of_presents u m hm _ _ _ stmts (presents_persist_SXI u m hm) hs
+    · exact reload_of_presents u m hm _ _ _ stmts (presents_persist_ISX u m hm) hs
+    · exact reload_of_presents u m hm _ _ _ stmts (presents_persist_IXS u m hm) hs
+    · exact reload_of_presents u m hm _ _ _ stmts (presents_persist_XSI u m hm) hs
+    · exact reload_of_presents u m hm _ _ _ stmts (presents_persist_XIS u m hm) hs
+
+
 end Pyx.Sql
